@@ -415,6 +415,40 @@ theorem C05_trash_safe_partial (hok : BalanceOK env classes sorter mounts reps)
   unfold OneMountPerServer at hsrv
   exact ((hid.and hsrv).and hdev).imp (fun {a b} h => ⟨h.1.1, h.1.2, h.2⟩)
 
+/-- Weaker hypothesis for servers with several mounts: no shared device, and every replica of the
+block sits on a mount of class `c` (nothing outside the class can absorb the protection — the
+ingredient of F2). Any number of mounts per server. -/
+theorem C05_trash_safe_partial_multimount (hok : BalanceOK env classes sorter mounts reps)
+    (hid : DistinctIds mounts) (hdev : NoSharedDevice mounts)
+    (c : Class) (hc : c ∈ classes) (hd : env.desired c ≠ 0)
+    (hall : ∀ m ∈ mounts, (replicaOn reps m.id).isSome = true → inClass c m = true) :
+    min (env.desired c) (physRepl c (balanceBlock env classes sorter mounts reps).heldBefore) ≤
+      physRepl c (balanceBlock env classes sorter mounts reps).heldAfter := by
+  apply trash_safe_of_inclass env classes sorter mounts reps hok _ c hc hd hall
+  unfold DistinctIds at hid
+  unfold NoSharedDevice at hdev
+  exact (hid.and hdev).imp (fun {a b} h => ⟨h.1, h.2⟩)
+
+/-- In particular a cluster without storage classes (every mount in the one class), with any number
+of mounts per server and no shared device, is safe. -/
+theorem C05_trash_safe_single_class (hok : BalanceOK env classes sorter mounts reps)
+    (hid : DistinctIds mounts) (hdev : NoSharedDevice mounts)
+    (c : Class) (hc : c ∈ classes) (hd : env.desired c ≠ 0) (hall : ∀ m ∈ mounts, inClass c m = true) :
+    min (env.desired c) (physRepl c (balanceBlock env classes sorter mounts reps).heldBefore) ≤
+      physRepl c (balanceBlock env classes sorter mounts reps).heldAfter :=
+  C05_trash_safe_partial_multimount env classes sorter mounts reps hok hid hdev c hc hd (fun m hm _ => hall m hm)
+
+/-- non-vacuity: two servers with two mounts each (distinct devices, all in class 0), replicas on
+three mounts, desired 2: one replica is trashed, two remain -/
+example :
+    let ms : List Mount := [mkMount 0 0 1 [0], mkMount 1 0 2 [0], mkMount 2 1 3 [0], mkMount 3 1 4 [0]]
+    let rs : List Replica := [⟨0, 0, 900⟩, ⟨1, 0, 901⟩, ⟨2, 1, 902⟩]
+    BalanceOK okEnv [0] (wSorter okEnv) ms rs ∧ DistinctIds ms ∧ NoSharedDevice ms ∧ (∀ m ∈ ms, inClass 0 m = true) ∧
+    physRepl 0 (balanceBlock okEnv [0] (wSorter okEnv) ms rs).heldBefore = 3 ∧
+    physRepl 0 (balanceBlock okEnv [0] (wSorter okEnv) ms rs).heldAfter = 2 := by
+  refine ⟨?_, by unfold DistinctIds; decide, by unfold NoSharedDevice; decide, by decide, by decide, by decide⟩
+  unfold BalanceOK; simp only [RunOK]; decide
+
 /-- non-vacuity: in the quadrant, a layout with a pull, a kept-because-new, a protected and a
 trashed replica; replication 2 before among old+new, 2 after -/
 example : BalanceOK okEnv [0] (wSorter okEnv) okMounts okReps ∧ DistinctIds okMounts ∧ NoSharedDevice okMounts ∧
